@@ -276,6 +276,9 @@ def scenarios():
     # a Cookie header that is dropped as a whole (illegal name after a legal pair), then well-formed ones in the other applications
     out.append(('dropped-cookie-header:alternating', 'alternating', [('A', 1, {'req': 'badcookie'}), ('B', 2, {}), ('D', 3, {'req': 'badcookie'}), ('A', 4, {}), ('B', 5, {'req': 'badcookie'}),
                                                                        ('B', 6, {}), ('D', 7, {})]))
+    # clients that send no Host header: the address comes from SERVER_NAME / SERVER_PORT, which differ between the applications' listeners
+    out.append(('host-less-clients:alternating', 'alternating', [('A', 1, {'req': 'http10'}), ('B', 2, {'req': 'http10'}), ('A', 3, {'req': 'http10'}), ('D', 4, {'req': 'http10'}),
+                                                                   ('B', 5, {}), ('D', 6, {'req': 'http10'})]))
     # text bodies given in pieces, every application with a charset of its own
     out.append(('encoded-bodies:alternating', 'alternating', [('D', 1, {'req': 'enc'}), ('A', 2, {'req': 'enc'}), ('B', 3, {'req': 'enc'}), ('D', 4, {'req': 'enc'}),
                                                                 ('B', 5, {'req': 'enc'}), ('A', 6, {'req': 'enc'}), ('A', 7, {}), ('D', 8, {'req': 'enc'})]))
@@ -302,6 +305,19 @@ def run_scenario(W, steps):
             from ombott.request_pkg.errors import BodySizeError
             W.keep = getattr(W, 'keep', [])
             W.keep.append(W.ombott.Ombott({'max_body_size': 8, 'errors_map': {BodySizeError: W.ombott.HTTPError(400, 'mapped by another application')}}))
+            continue
+        if script.get('req') == 'http10':
+            from vmon.wsgi import apply_flavour
+            W.reset()
+            env = apply_flavour(env_for(app_name, i), 'http10')
+            r = call_app(W.apps[app_name], env)
+            nobs += 1
+            devs.extend(check_response(W, app_name, i, r, {}))
+            for who, when, val in W.reads:
+                nobs += 1
+                e = exp_read(who, i, when)
+                if who != app_name or val != e:
+                    devs.append(('read', who, when, val, e))
             continue
         if script.get('req') == 'badcookie':
             W.reset()
@@ -680,13 +696,15 @@ def settings_unit(ctx, unit):
                           f'default application served a request, then another application redirects: {r.status} {hs} (expected 303 {exp})',
                           {'unit': {'kind': 'note', 'what': 'redirect after the default application served a request'}})
     arrangements = []
-    for who in ('default-config app', 'explicit-config app', 'module default app'):
+    for who in ('default-config app', 'explicit-config app', 'module default app', "app built from the victim's config object"):
         for what in ('debug', 'max_body_size', 'domain_map', 'status-phrase', 'in-place-mutation-of-parsed-values'):
             arrangements.append((who, what))
     for ai, (who, what) in enumerate(arrangements):
-        code = 471 + ai if ai < 25 else 560 + ai
+        code = 611 + ai          # unregistered codes, also ten above (code + 10 is used as well)
         other = make() if who != 'explicit-config app' else make({'max_body_size': None})
         victim_a = make()                       # built with default config as well
+        if who == "app built from the victim's config object":
+            other = make(victim_a.config)       # Ombott(a.config): a copy of the settings, not the same settings object
         victim_b = ombott.default_app() if who == 'module default app' else make({'debug': False})
         if who == 'module default app':
             for r in list(victim_b.router.routes.values()):
